@@ -231,7 +231,41 @@ let sc_fileset c =
   destroy c fid; Mg.c_merge_clos_free mc;
   observe c "fileset_destroy" ~threads_exact:true
 
-let scenarios = [| ("writer", sc_writer); ("reader", sc_reader); ("merger", sc_merger); ("sorter", sc_sorter); ("fileset", sc_fileset); ("sorter_final_flush_fails", sc_sorter_final_flush_fails); ("sorter_write_refused", sc_sorter_write_refused) |]
+(* a table that stays loaded across a reload of a changed setfile and is dropped by a later one *)
+let sc_fileset_long c =
+  let names = List.init (rrange c.st 3 5) (fun i -> Printf.sprintf "u%02d.mtbl" i) in
+  List.iter (fun nm -> ignore (mk_table c nm (rrange c.st 1 30))) names;
+  let setfile = Filename.concat c.dir "setl.fileset" in
+  let stamp = ref 6000.0 in
+  let write_set l = let oc = open_out setfile in List.iter (fun nm -> output_string oc (nm ^ "\n")) l; close_out oc;
+    stamp := !stamp +. 10.0; Unix.utimes setfile !stamp !stamp in
+  let mc = Mg.c_merge_clos_new 1 0 in
+  let first = [ List.nth names 0; List.nth names 1 ] in
+  write_set first;
+  let f = Fs.c_fileset_init setfile 0 mc 0 0 in
+  let fid = create c (KFileset N0) in
+  let use () = let it = Rd.c_source_iter (Fs.c_fileset_source f) in for _ = 1 to rint c.st 6 do ignore (Rd.c_iter_next it) done; Rd.c_iter_destroy it in
+  use (); update c fid (KFileset (n_of_int 2));
+  observe c "fileset(first load)" ~threads_exact:true;
+  let d = if rbool c.st then Some (Fs.c_fileset_dup f 0 mc 0 0) else None in
+  (* grow: the first two survive *)
+  write_set names; Fs.c_advance_clock 5 0; Fs.c_fileset_reload_now f; use ();
+  update c fid (KFileset (n_of_int (List.length names)));
+  observe c "reload_now(setfile grew)" ~threads_exact:true;
+  (* shrink: one of the long-lived tables is dropped *)
+  let kept = List.filter (fun nm -> nm <> List.nth names 1) names in
+  write_set kept; Fs.c_advance_clock 5 0; Fs.c_fileset_reload_now f; use ();
+  (match d with Some dd -> let it = Rd.c_source_iter (Fs.c_fileset_source dd) in ignore (Rd.c_iter_next it); Rd.c_iter_destroy it | None -> ());
+  update c fid (KFileset (n_of_int (List.length kept)));
+  observe c "reload_now(long-lived table dropped)" ~threads_exact:true;
+  write_set [ List.nth names 2 ]; Fs.c_advance_clock 5 0; Fs.c_fileset_reload_now f; use ();
+  update c fid (KFileset (n_of_int 1));
+  observe c "reload_now(all but one dropped)" ~threads_exact:true;
+  (match d with Some dd -> Fs.c_fileset_destroy dd | None -> ());
+  Fs.c_fileset_destroy f; destroy c fid; Mg.c_merge_clos_free mc;
+  observe c "fileset_destroy" ~threads_exact:true
+
+let scenarios = [| ("writer", sc_writer); ("reader", sc_reader); ("merger", sc_merger); ("sorter", sc_sorter); ("fileset", sc_fileset); ("sorter_final_flush_fails", sc_sorter_final_flush_fails); ("sorter_write_refused", sc_sorter_write_refused); ("fileset_long", sc_fileset_long) |]
 
 let run_scenario (name : string) (f : ctx -> unit) ~seed ~index : child_end =
   in_child (fun () ->
